@@ -3,7 +3,7 @@ out-of-range position before any unchecked word access; BitVector's shrinking me
 vacate (R-SHRINK: the rank/select builders popcount whole words). Numeric correctness is NOT decided."""
 from vlib import fixtures
 from props import _refusal_common as rc
-from rules import shrink
+from rules import shrink, tailmask
 
 FILES = ['src/succinct/bit_vector.rs', 'src/succinct/rank_select/mod.rs', 'src/succinct/rank_select/interleaved.rs',
          'src/succinct/rank_select/separated.rs', 'src/succinct/rank_select/separated_512.rs',
@@ -15,10 +15,13 @@ FILES = ['src/succinct/bit_vector.rs', 'src/succinct/rank_select/mod.rs', 'src/s
 
 def run(ctx):
     fx = ctx.facts("default")
-    fixtures.run(ctx, ['taint', 'shrink'])
+    fixtures.run(ctx, ['taint', 'shrink', 'tailmask'])
     # rank/select builders popcount whole words: BitVector must clear what it vacates
     shrink.run(ctx, fx, 'src/succinct/bit_vector.rs', 'succinct::bit_vector::BitVector', 'len', 'blocks')
-    ctx.floor('R-SHRINK.methods', 3)
+    ctx.floor('R-SHRINK.methods', 2)
+    # the valid bits of the last word: (1 << (n % 64)) - 1 is only right for the word at n / 64
+    tailmask.run(ctx, fx, FILES)
+    ctx.floor('R-TAILMASK.masks', 6)
     rc.accessors(ctx, fx, FILES, r'^select[01](_.*)?$', "R-GUARD.refusal", all_success=True)
     ctx.floor("R-GUARD.refusal.accessors", 15)
     rc.unsafe_sinks(ctx, fx, FILES, "R-GUARD")
@@ -31,6 +34,6 @@ def run(ctx):
                     "compared with a count-derived value on an edge that cannot reach a successful return, or be forwarded to a "
                     "callee checked the same way; index-like parameters of all public/trait functions of the files must be "
                     "guarded before get_unchecked / pointer arithmetic.",
-        trusted_base=["rustc nightly MIR", "zfacts", "rules/refusal.py", "rules/taint.py", "rules/shrink.py"],
+        trusted_base=["rustc nightly MIR", "zfacts", "rules/refusal.py", "rules/taint.py", "rules/shrink.py", "rules/tailmask.py"],
         rule_text="obligation = (accessor, index-like parameter) | unchecked sink with a parameter-derived operand",
     )
